@@ -177,6 +177,7 @@ func (c *Ctx) mustPrecede(fn *ssa.Function, a Sel, aname string, b Sel, bname st
 			// be nil (the exits of an inlined helper share one return)
 			if r, isRet := in.(*ssa.Return); isRet && len(r.Results) > 0 && isErrorType(r.Results[len(r.Results)-1].Type()) && errSuccess(r) {
 				v := ir.RetVal(r, len(r.Results)-1)
+				nonNil := false
 				for d := 0; d < 4; d++ {
 					ph, isPhi := v.(*ssa.Phi)
 					if !isPhi {
@@ -186,9 +187,16 @@ func (c *Ctx) mustPrecede(fn *ssa.Function, a Sel, aname string, b Sel, bname st
 					if !ok {
 						break
 					}
+					// (an error handed on from the edge on which it was
+					// found not to be nil)
+					for i, e := range ph.Edges {
+						if e == w && (nonNilEdge(w, ph.Block().Preds[i], ph.Block()) || nonNilAt(w, ph.Block().Preds[i])) {
+							nonNil = true
+						}
+					}
 					v = w
 				}
-				if knownNonNilError(v) {
+				if nonNil || knownNonNilError(v) {
 					return true
 				}
 			}
